@@ -68,7 +68,8 @@ def run(rep, tier, seed):
         pd.direction = d
         # ContextManager path
         cm = ContextManager(Context(id='c', description='', interface_id='i', parser_id=stack, ruleset=[rule]))
-        out = obs_bits(with_timeout(lambda: cm.compress(Buffer(pkt, len(pkt) * 8), direction=d)))
+        d_arg = d if i % 3 else str.__str__(d.value)        # every third manager call gets the direction by value ('Up' / 'Dw')
+        out = obs_bits(with_timeout(lambda: cm.compress(Buffer(pkt, len(pkt) * 8), direction=d_arg)))
         nr = n_rule(rule)
         want = ref_compress(dict(n_pdesc(pd), dir=DIRC[d]), nr, DIRC[d])
         fails = [] if out == ('OK', want) else ['manager compress for direction %s gives %s, expected %s' % (DIRC[d], str(out)[:100], (want or 'None')[:100])]
@@ -76,7 +77,7 @@ def run(rep, tier, seed):
         b.add('manager-compress-' + klass, line, out, parse_model_bits, fails, dict(layer='schc', op='cmcompress', stack=stack, packet=pkt.hex(), rules=[nr], direction=DIRC[d]), key=line)
         if out[0] == 'OK':
             s = out[1]
-            o2 = obs_bits(with_timeout(lambda: cm.decompress(mk(s, R), direction=d)))
+            o2 = obs_bits(with_timeout(lambda: cm.decompress(mk(s, R), direction=d_arg)))
             fails = [] if o2 == ('OK', b2s(pkt)) else ['manager decompress for direction %s gives %s' % (DIRC[d], str(o2)[:100])]
             line = ' '.join(['S', 'cmdecompress', tb(s), DIRC[d]] + rules_tokens([nr]))
             b.add('manager-roundtrip-' + klass, line, o2, parse_model_bits, fails, dict(layer='schc', op='cmdecompress', schc=s, rules=[nr], direction=DIRC[d]), key=line)
